@@ -34,3 +34,67 @@ def conc3(a):
 
 def conc4(a):
     return 0 if a == 0 else 1 if a == 1 else 2 if a == 2 else 3
+
+
+# ----------------------------------------------------------------------------------------------
+# POSIX wait-status models (STUBS, pure Python arithmetic so they stay symbolic; Linux/glibc encoding:
+# low 7 bits = terminating signal (0 = exited, 0x7f = stopped), bit 7 = core flag, bits 8..15 = exit
+# code).  Cross-checked against the real os.W* functions on all 65536 statuses by validate_wmodels().
+
+def w_ifexited(s):
+    return s % 128 == 0
+
+
+def w_exitstatus(s):
+    return (s // 256) % 256
+
+
+def w_ifsignaled(s):
+    return s % 128 != 0 and s % 128 != 127
+
+
+def w_termsig(s):
+    return s % 128
+
+
+def w_ifstopped(s):
+    return s % 256 == 127
+
+
+def validate_wmodels():
+    import os
+    bad = []
+    for s in range(65536):
+        if (os.WIFEXITED(s) != w_ifexited(s) or os.WIFSIGNALED(s) != w_ifsignaled(s)
+                or os.WIFSTOPPED(s) != w_ifstopped(s) or os.WTERMSIG(s) != w_termsig(s)
+                or os.WEXITSTATUS(s) != w_exitstatus(s)):
+            bad.append(s)
+    return bad
+
+
+class FakeModule:
+    """Proxy for a module object bound to a name inside tornado.process (os / sys): overridden
+    attributes come from `over`, everything else from the real module."""
+
+    def __init__(self, real, **over):
+        self.__dict__["_real"] = real
+        self.__dict__.update(over)
+
+    def __getattr__(self, k):
+        return getattr(self.__dict__["_real"], k)
+
+
+class NullLog:
+    def __init__(self):
+        self.records = []
+
+    def info(self, msg, *a, **kw):
+        self.records.append(("info", msg))
+
+    def warning(self, msg, *a, **kw):
+        self.records.append(("warning", msg))
+
+    def error(self, msg, *a, **kw):
+        self.records.append(("error", msg))
+
+    debug = info
